@@ -46,6 +46,11 @@ def scope_task(task):
             res['inconclusive'].append('%s: path %s (%s)' % (case.name, p.kind, p.info))
             continue
         if p.kind == 'unspecified' and 'more than' in str(p.info):
+            if case.unchecked:
+                # an access through an index the program never constrained: without run-time checks that is undefined behaviour
+                # (README), outside the property; counted, not claimed
+                res['excluded_undefined'] = res.get('excluded_undefined', 0) + 1
+                continue
             res['inconclusive'].append('%s: %s' % (case.name, p.info))
             continue
         if p.kind != 'violation':
@@ -98,6 +103,7 @@ def main():
 
     def on_result(r):
         tot[0] += r.get('monitor_checks', 0)
+        rep.cov['unchecked_paths_with_unconstrained_index_excluded'] = rep.cov.get('unchecked_paths_with_unconstrained_index_excluded', 0) + r.get('excluded_undefined', 0)
     run_tasks(rep, tasks, worker=scope_task, on_result=on_result)
     # "arrays that are still in scope are never released early": an early release is invisible to the (fp, ap) equalities at
     # scope boundaries, but the next allocation then overwrites the live array -- decided as VM vs reference interpreter
